@@ -43,6 +43,16 @@ FIXED = [
     ("C08", "d1199a4", "`@component(\"c\")@slot(\"a\")x` accepted without @end"),
     ("C16", "8e11d82", "after any EvaluateString/EvaluateFile/Response error page, a failing tpl.String(\"bad\") reported <cwd>/bad.tw instead of <cwd>/<dir>/bad.tw (usesTemplates read by getFullPath on the render path)"),
     ("C15", "af919a4", "concurrent EvaluateString/EvaluateFile/Response-error-page calls raced on the plain bool usesTemplates (go test -race: DATA RACE at textwire.go:37)"),
+    ("C14", "9d7df53", "`{{ {a: 1, b: 2, c: 3} }}` and @dump printed object properties in a different order on every run (Obj.String/Obj.Dump ranged over the map)"),
+    ("C14", "2d8b171", "`{{ {a: x1, b: x2} }}` and component arguments with several failing entries reported a different error from run to run"),
+    ("C14", "7b69a4d", "data `{\"a\": chan, \"b\": func}` reported a different unsupported key from run to run (EnvFromMap ranged over the map)"),
+    ("C14", "2befd07", "with several undefined inserts, duplicate slots or faulty template files, which one was reported depended on map iteration order"),
+    ("C18", "8c4bab0", "`t/notes.tw.bak` was parsed and registered as template `notes.bak` (strings.Contains on the extension); a broken backup file made NewTemplate fail"),
+    ("C18", "29c066c", "TemplateDir `./t` or `t/../t` made every lookup \"template not found\"; `a.tw.d/real.tw` lost the extension from the middle of its name (strings.Replace)"),
+    ("C04", "62b993e", "`{{ x = \"s\" }}@component(\"~box\", {x: 1})` and an argument named loop were silently not bound (error of Env.Set dropped)"),
+    ("C07", "62b993e", "component argument binding errors were dropped"),
+    ("C07", "ef8a81b", "two uses of one component shared one parsed program: `...{t:\"A\"})@slot one@end@end|...{t:\"B\"})@slot two@end@end` rendered `[A: two]|[B: two]`"),
+    ("C05", "98ff919", "`}} b` rendered ` b` and `{{ 1 }}}}` rendered `1`: a closing-braces token was produced in text mode"),
     ("C13", "8e11d82", "reported path of a failing page changed after a string evaluation"),
 ]
 
